@@ -112,7 +112,10 @@ func verifWireOf(q []verifEntry) []byte {
 // observe resends both queues onto a fresh, fault-free connection and compares
 // with the shadow model: exactly the in-flight set, in order, at the right
 // stage, DUP only on re-deliveries, original identifiers.
-func (o *verifOut) observe(tag string) {
+func (o *verifOut) observe(tag string)        { o.observe2(tag, true) }
+func (o *verifOut) observeNoCount(tag string) { o.observe2(tag, false) }
+
+func (o *verifOut) observe2(tag string, count bool) {
 	c := o.c
 	verifTokensHome(c, tag)
 	saved := o.store.faults
@@ -141,7 +144,9 @@ func (o *verifOut) observe(tag string) {
 			}
 		}
 	}
-	verifAssert(n == len(o.q1)+len(o.q2), tag+": store holds a different number of outbound records than transfers in flight")
+	if count {
+		verifAssert(n == len(o.q1)+len(o.q2), tag+": store holds a different number of outbound records than transfers in flight")
+	}
 	o.store.faults = saved
 }
 
